@@ -11,7 +11,7 @@ import time
 import traceback
 
 VERIF = os.path.realpath(os.path.join(os.path.dirname(__file__), "..", ".."))
-OUT = os.path.join(VERIF, "out")
+OUT = os.environ.get("VERIF_OUT") or os.path.join(VERIF, "out")  # scratch + replay files
 REPLAYS = os.path.join(OUT, "replays")
 EVIDENCE = os.path.join(VERIF, "evidence")
 KNOWN = os.path.join(VERIF, "known_findings.txt")
@@ -398,7 +398,7 @@ def parent_main(a):
     )
     ev = dict(property_id=pid, tier=tier, seed=master, level=prop.level, coverage=cov, assumptions=list(prop.assumptions),
               wall_s=round(wall, 2), violations=nviol)
-    if not harness_fail and total > 0:
+    if not harness_fail and total > 0 and not os.environ.get("VERIF_NO_EVIDENCE"):
         os.makedirs(EVIDENCE, exist_ok=True)
         with open(os.path.join(EVIDENCE, f"{pid}.json"), "w") as f:
             json.dump(ev, f, indent=1, sort_keys=True, default=str)
